@@ -28,6 +28,15 @@ def run(ctx):
         out = ctx.run_vh(binp, ["c17-run", "--arg", "pool=%d" % pool], cases=recs)
         if len(out) != len(recs):
             raise vlib.Infra("c17: %d results for %d cases" % (len(out), len(recs)))
+        if pool == 0:
+            # lists of three or more rules once more under the race detector: a matcher is shared by all request goroutines,
+            # state it changes while answering shows as a data race whatever the interleaving of this run
+            binr = ctx.build(out="vh-race", race=True)
+            sub = [r for r in recs if len(r.get("list", [])) >= 3][:150]
+            outr = ctx.run_vh(binr, ["c17-run", "--arg", "pool=%d" % pool], cases=sub, timeout=900)
+            outr, _ = ctx.nocrash(outr, "C17:combine:data-race")
+            out = out + outr
+            recs = recs + sub
         for r in out:
             ctx.evaluations += 1
             if r.get("nt"):
